@@ -1,11 +1,15 @@
 """Shared driver code for the osmpbf pipeline checks C02 C06 C07 C09 (spec: PbfPipeline / PbfTrace / PbfGen / PbfRunJudge)."""
-import json, os, random, re, subprocess, concurrent.futures as cf
+import json
+import os, random, re, subprocess, concurrent.futures as cf
 import vlib
 
 MC = "MC_Pbf"
 # schedule bias profiles of the random walks (weight per goroutine class); {} = uniform
 WEIGHTS = [{}, {}, {"r": 12, "w": 1, "s": 1, "c": 1}, {"r": 6, "w": 6, "s": 1, "c": 1}, {"r": 1, "w": 1, "s": 1, "c": 8},
            {"r": 8, "w": 1, "s": 4, "c": 4}, {"r": 4, "w": 1, "s": 1, "c": 1}]
+
+
+SCHED_STUCK = "outcome: hang: goroutines did not reach their next hook"
 
 
 def slow_choice(rng):
@@ -233,6 +237,30 @@ def confirm(ctx, cases, recs, bad, prefixes, rerun):
     for i, why, kf in sel:
         if any(w.startswith("outcome: race") for w in why):
             confirmed += report(i, why, kf)
+        elif cases[i].get("kind") != "jitter" and any(w.startswith(SCHED_STUCK) for w in why):
+            # The deterministic scheduler could not drive the run: a goroutine it expects never reached its next hook.  That is
+            # what a real hang looks like, but also what a tree looks like whose goroutine structure differs from the Model
+            # (a goroutine less, an extra hand-off between two hooks) while the property holds.  The verdict is therefore taken
+            # from the same case under real concurrency, without the scheduler: only if that fails the Judge too is it reported.
+            rng = random.Random(ctx.seed * 1000 + i)
+            plain = [dict(cases[i], kind="jitter", script=cases[i].get("script") or ["scanall", "err"], seed=rng.randrange(1 << 30),
+                          cancelStep=cases[i].get("cancelStep", -1), slow=slow_choice(rng)) for _ in range(6)]
+            for c in plain:
+                c.pop("sched", None), c.pop("wit", None), c.pop("weights", None)
+            again = rerun(plain)
+            bad2 = judge_runs(ctx, again, prefixes)
+            if bad2:
+                j, why2, kf2 = bad2[0]
+                k = ctx.known_match(kf2)
+                if k:
+                    ctx.known_hits[k["kf"]] = ctx.known_hits.get(k["kf"], 0) + 1
+                else:
+                    ctx.report_bad(plain[j], why2, kf2, {"property": ctx.prop, "case": plain[j], "run": again[j]["run"], "why": why2, "seed": ctx.seed})
+                    confirmed += 1
+            else:
+                ctx.divergences += 1
+                vlib.log("DIVERGENCE property=%s case %d: the scheduler could not drive this tree (%s); the same case passes in 6 runs "
+                         "under real concurrency: goroutine structure differs from the Model, not a verdict" % (ctx.prop, i, [w for w in why if w.startswith(SCHED_STUCK)][0][:160]))
         else:
             pending.append((i, why, kf))
     for attempt in range(5):
